@@ -422,6 +422,7 @@ def permutations_rule(ctx, world):
                 if res != ident and bad is None:
                     bad = (n, cfg, res)
         inst = construct_of(e)
+        ctx.extra["A16_configurations_evaluated"] = ctx.extra.get("A16_configurations_evaluated", 0) + total
         if bad is not None:
             n, cfg, res = bad
             ctx.fail(
@@ -481,6 +482,7 @@ def norm_rolls(ctx, world):
                         bad = (n, (r, c), f"roll(x) has axes {C.rolled.axes}, expected {want} (matrix axes last, row before column)")
                 if C.unrolled is not None and C.unrolled != ident and bad is None:
                     bad = (n, (r, c), f"unroll(roll(x)) has axes {C.unrolled.axes}, expected {tuple(range(n))}")
+        ctx.extra["A16_norm_axis_pairs_evaluated"] = ctx.extra.get("A16_norm_axis_pairs_evaluated", 0) + total
         if bad:
             n, cfg, why = bad
             ctx.fail("A16.norm", inst, inst + "|nuc-layout", e.loc, f"rank {n}, axis={cfg}: {why}", f"np.linalg.norm(x, 'nuc', axis={cfg}) on a rank-{n} array", sample=f"{decided}/{total}")
